@@ -160,7 +160,11 @@ def nelder_mead(
             evaluate.to_user(values[0]),
             evaluate.evals,
         ):
-            return Result(simplex[0], evaluate.to_user(values[0]), iteration, evaluate.evals, Status.FEASIBLE)
+            # The simplex is only sorted at the top of the loop: pick the best vertex, not vertex 0
+            best_idx = min(range(n + 1), key=lambda i: values[i])
+            return Result(
+                simplex[best_idx], evaluate.to_user(values[best_idx]), iteration, evaluate.evals, Status.FEASIBLE
+            )
 
     # Find best vertex
     best_idx = min(range(n + 1), key=lambda i: values[i])
